@@ -5,7 +5,7 @@ import ast
 from typing import Dict, List, Set
 
 from ..callgraph import callgraph
-from ..cfg import CFG, cfg_of, must_reach, node_calls, nodes_dominate, reach
+from ..cfg import CFG, cfg_of, dominating_edges, must_reach, node_calls, nodes_dominate, reach
 from ..defuse import def_value, reaching_defs, resolve_alias
 from ..esp import run_method, val_str, valuations
 from ..model import Class, Func, Repo, ancestors, attr_chain, body_nodes, norm, parent, short
@@ -21,6 +21,7 @@ def check(repo: Repo, rep, tier):
     ctx_restore(repo, rep)
     nonoverlap(repo, rep)
     apply_exh(repo, rep)
+    apply_routing(repo, rep)
     items_kind(repo, rep)
     changes_fresh(repo, rep)
     delete_exclusive(repo, rep)
@@ -701,3 +702,137 @@ def nested_drop(repo: Repo, rep):
     if not bad and n_use:
         rep.ok("R-NESTED-DROP", f, lp.ast, f"{n_use} routing/application sites behind the containment test")
     rep.floor("R-NESTED-DROP", "routing/application sites", n_use, 2)
+
+
+# parent node kind -> the insertion kind its emitters produce (SequenceAdapter -> ListInsert on a List/Tuple display,
+# DictAdapter / DictValue -> DictInsert on a Dict display, GenericCallAdapter -> CallArg on a Call) and the child lists that are enumerated
+PARENT_TABLE = {
+    "List": ("ListInsert", {"elts"}),
+    "Tuple": ("ListInsert", {"elts"}),
+    "Call": ("CallArg", {"args", "keywords"}),
+    "Dict": ("DictInsert", {"keys", "values"}),
+}
+
+
+def _isinstance_kinds(e, subject: str):
+    if isinstance(e, ast.Call) and norm(e.func) == "isinstance" and len(e.args) == 2 and norm(e.args[0]) == subject:
+        t = e.args[1]
+        return [x.attr if isinstance(x, ast.Attribute) else x.id for x in (t.elts if isinstance(t, ast.Tuple) else [t]) if isinstance(x, (ast.Name, ast.Attribute))]
+    return None
+
+
+def apply_routing(repo: Repo, rep):
+    rep.rule(
+        "R-APPLY-ROUTING",
+        "apply_all routes by kind on the right edges: (A) in the grouping loop a change is filed under the *parent* of its node exactly on the true edge of "
+        "isinstance(change, Delete), under its own node on the true edge of the insertion kinds, and handed to change.apply() only on the false edges of "
+        "both; (B) per parent, the branch on the true edge of isinstance(parent, K) consumes the insertion kind of K (List/Tuple: ListInsert, Call: CallArg, "
+        "Dict: DictInsert) and no other, enumerates K's own child lists, marks exactly the elements found in the delete set as removed "
+        "(`None if e in to_delete else <range>`), and calls generic_sequence_update once",
+    )
+    f = repo.func("_change.py::apply_all")
+    cfg = cfg_of(f)
+    kinds = change_classes(repo)
+    insert_kinds = {k for k in kinds if k in ("DictInsert", "ListInsert", "CallArg")}
+    loops = [n for n in cfg.live if n.kind == "for"]
+    p0 = f.params[0]
+    group = [l for l in loops if norm(l.ast.iter) == p0]
+    if not group:
+        rep.undecided("R-APPLY-ROUTING", "grouping loop over the changes not found")
+        return
+    var = norm(group[0].ast.target)
+
+    def kind_edges(node):
+        out = {}
+        for c, l in dominating_edges(cfg, node):
+            ks = _isinstance_kinds(c.ast, var) if c.kind == "cond" else None
+            if ks:
+                for k in ks:
+                    out[k] = l
+        return out
+
+    # (A)
+    a_n = 0
+    for n in cfg.live:
+        if n.kind != "stmt":
+            continue
+        e = n.ast
+        # X = <change.node ...>.parent
+        if isinstance(e, ast.Assign) and any(isinstance(x, ast.Attribute) and x.attr == "parent" and f"{var}.node" in norm(x.value) for x in ast.walk(e.value)):
+            a_n += 1
+            ke = kind_edges(n)
+            if ke.get("Delete") == "T" and not any(ke.get(k) == "T" for k in insert_kinds):
+                rep.ok("R-APPLY-ROUTING", f, e, "a Delete is filed under the parent of its node")
+            else:
+                rep.violation("R-APPLY-ROUTING", f, e, f"the parent of the node is taken on the edges {ke or 'none'} instead of the true edge of isinstance({var}, Delete): deletions are grouped under the wrong container / insertions under the container's parent", construct="group:parent")
+        if isinstance(e, ast.Assign) and isinstance(e.value, ast.Call) and norm(e.value.func) == "cast" and norm(e.value.args[-1]) == f"{var}.node" or (isinstance(e, ast.Assign) and norm(e.value) == f"{var}.node"):
+            a_n += 1
+            ke = kind_edges(n)
+            if any(ke.get(k) == "T" for k in insert_kinds) and ke.get("Delete") != "T":
+                rep.ok("R-APPLY-ROUTING", f, e, "an insertion is filed under its own node")
+            else:
+                rep.violation("R-APPLY-ROUTING", f, e, f"a change is filed under its own node on the edges {ke or 'none'} instead of the true edge of the insertion kinds", construct="group:own")
+        for c in node_calls(n):
+            if isinstance(c.func, ast.Attribute) and c.func.attr == "apply" and norm(c.func.value) == var:
+                a_n += 1
+                ke = kind_edges(n)
+                if ke.get("Delete") == "F" and all(ke.get(k) == "F" for k in insert_kinds):
+                    rep.ok("R-APPLY-ROUTING", f, c, "apply() only for kinds that are neither Delete nor an insertion")
+                else:
+                    rep.violation("R-APPLY-ROUTING", f, c, f"`{norm(c)}` is reached on the edges {ke or 'none'}: a Delete / insertion (which have no apply() of their own) can be sent there, or a Replace be grouped instead", construct="group:apply")
+    rep.floor("R-APPLY-ROUTING", "grouping actions", a_n, 3)
+    # (B)
+    pvar = None
+    for l in loops:
+        if l is not group[0] and isinstance(l.ast.target, ast.Tuple) and ".items()" in norm(l.ast.iter):
+            pvar = norm(l.ast.target.elts[0])
+            ploop = l
+    if pvar is None:
+        rep.undecided("R-APPLY-ROUTING", "loop over the grouped parents not found")
+        return
+    pconds = [c for c in cfg.conds() if _isinstance_kinds(c.ast, pvar)]
+    b_n = 0
+    for c in pconds:
+        ks = [k for k in _isinstance_kinds(c.ast, pvar) if k in PARENT_TABLE]
+        if not ks:
+            continue
+        region = reach(cfg, [b for b, l in c.succ if l == "T"], blocked_nodes=[x for x in pconds if x is not c] + [ploop])
+        exprs = []
+        for nd in region:
+            if nd.ast is not None:
+                exprs.append(nd.ast)
+        want_kind, want_lists = PARENT_TABLE[ks[0]]
+        used_kinds = set()
+        gsu = []
+        for e in exprs:
+            for x in ast.walk(e):
+                ik = _isinstance_kinds(x, "change")
+                if ik:
+                    used_kinds |= set(ik) & insert_kinds
+                if isinstance(x, ast.Call) and norm(x.func).endswith("generic_sequence_update") and x not in gsu:
+                    gsu.append(x)
+        b_n += 1
+        label = "/".join(ks)
+        if used_kinds != {want_kind}:
+            rep.violation("R-APPLY-ROUTING", f, c.ast, f"the branch for ast.{label} parents consumes {sorted(used_kinds) or 'no insertion kind'} instead of {want_kind}: insertions into a {label} are dropped or formatted as another container's entries", construct=f"branch:{label}:kind")
+            continue
+        if len(gsu) != 1:
+            rep.violation("R-APPLY-ROUTING", f, c.ast, f"the branch for ast.{label} parents calls generic_sequence_update {len(gsu)} times (expected once)", construct=f"branch:{label}:update-calls")
+            continue
+        call = gsu[0]
+        elems = call.args[3] if len(call.args) > 3 else None
+        lists = {x.attr for x in ast.walk(elems) if isinstance(x, ast.Attribute) and norm(x.value) == pvar} if elems is not None else set()
+        if not (lists and lists <= want_lists and (want_lists <= lists)):
+            rep.violation("R-APPLY-ROUTING", f, call, f"the branch for ast.{label} parents enumerates `{sorted(lists)}` of the parent instead of {sorted(want_lists)}", construct=f"branch:{label}:children")
+            continue
+        ife = [x for x in ast.walk(elems) if isinstance(x, ast.IfExp) and isinstance(x.test, ast.Compare) and len(x.test.ops) == 1 and isinstance(x.test.ops[0], (ast.In, ast.NotIn))]
+        good = False
+        for x in ife:
+            none_side = x.body if isinstance(x.test.ops[0], ast.In) else x.orelse
+            if isinstance(none_side, ast.Constant) and none_side.value is None:
+                good = True
+        if ife and not good:
+            rep.violation("R-APPLY-ROUTING", f, ife[0], f"`{short(ife[0], 60)}`: the elements marked as removed are those NOT in the delete set - every element the user did not delete is removed from the source", construct=f"branch:{label}:delete-polarity")
+            continue
+        rep.ok("R-APPLY-ROUTING", f, c.ast, f"ast.{label}: consumes {want_kind}, enumerates {sorted(lists)}, removes exactly the delete set, one update call")
+    rep.floor("R-APPLY-ROUTING", "parent branches", b_n, 3)
